@@ -398,23 +398,24 @@ def r4_default_predicates(program, rep):
 
 def r6_components(program, rep):
     from . import C03, C04, C10
-    C10.r1_tables(program, rep)
-    C04.r2_default(program, rep)
-    C04.r3_ranges(program, rep)
-    C04.r5_contract(program, rep)
-    C03.r5_reconnect(program, rep)
-    C03.r3_growth(program, rep)
-    rep.note("R6 re-runs C10-R1, C04-R2, C04-R3, C03-R3/R4/R5 (reported "
-             "under their own rule names): a tree-to-table, default-route, "
-             "covering-range or repair defect breaks delivery")
+    rep.guard("C10-R1", C10.r1_tables, program, rep)
+    rep.guard("C04-R2", C04.r2_default, program, rep)
+    rep.guard("C04-R3", C04.r3_ranges, program, rep)
+    rep.guard("C04-R5", C04.r5_contract, program, rep)
+    rep.guard("C03-R5", C03.r5_reconnect, program, rep)
+    rep.guard(["C03-R3", "C03-R4"], C03.r3_growth, program, rep)
+    rep.note("R6 re-runs C10-R1, C04-R2, C04-R3, C04-R5, C03-R3/R4/R5 "
+             "(reported under their own rule names): a tree-to-table, "
+             "default-route, covering-range, front-end or repair defect "
+             "breaks delivery")
 
 
 def check(program, rep):
     program.module(WR)
-    r1_pipeline(program, rep)
-    r2_description(program, rep)
-    r3_cores(program, rep)
-    r4_default_predicates(program, rep)
+    rep.guard("C01-R1", r1_pipeline, program, rep)
+    rep.guard("C01-R2", r2_description, program, rep)
+    rep.guard("C01-R3", r3_cores, program, rep)
+    rep.guard("C01-R4", r4_default_predicates, program, rep)
     r6_components(program, rep)
     return finish(rep, program, EXPLANATION, NOT_DECIDED,
                   trusted=["the stage signatures (vertices_resources, nets, "
